@@ -22,16 +22,30 @@ def helper():
 
 
 def monitored_code_objects():
+    """the code objects of the pure-python engines' run loops and of the helpers they call per op. Found by name
+    pattern, not by a fixed list: a refactoring that renames, removes or adds a helper must not break the harness
+    (a helper that is missed only means that no interrupt lands inside it)."""
+    import types
     from flipjump.interpreter import fjm_run
     from flipjump.fjm import fjm_reader
     from flipjump.utils import classes
-    from flipjump.interpreter.io_devices import device_memory
-    fns = [fjm_run._run_fast, fjm_run._run_featured, fjm_run._handle_input, fjm_run._handle_output,
-           fjm_run._trace_flip, fjm_run._trace_jump,
-           fjm_reader.Reader.get_word, fjm_reader.Reader._get_memory_word, fjm_reader.Reader.write_bit,
-           fjm_reader.Reader.read_bit, fjm_reader.Reader._bit_address_decompose, fjm_reader.Reader._set_memory_word,
-           classes.RunStatistics.register_op, classes.RunStatistics.register_op_address,
-           classes.RunStatistics.PauseTimer.__enter__, classes.RunStatistics.PauseTimer.__exit__]
+    fns = []
+    for name, f in vars(fjm_run).items():
+        if isinstance(f, types.FunctionType) and f.__module__ == fjm_run.__name__ and \
+                name.startswith(('_run_fast', '_run_featured', '_handle_', '_trace_')):
+            fns.append(f)
+    not_per_op = ('__', '_init', '_read_', '_decompress', '_validate', '_load', '_parse', '_check', 'get_memory',
+                  'memory_segments', 'assert_')
+    for name, f in vars(fjm_reader.Reader).items():
+        if isinstance(f, types.FunctionType) and not name.startswith(not_per_op):
+            fns.append(f)
+    rs = classes.RunStatistics
+    for owner, names in ((rs, ('register_op', 'register_op_address')),
+                         (getattr(rs, 'PauseTimer', None), ('__enter__', '__exit__'))):
+        for name in names:
+            f = getattr(owner, name, None) if owner is not None else None
+            if isinstance(f, types.FunctionType):
+                fns.append(f)
     return [f.__code__ for f in fns]
 
 
